@@ -384,6 +384,8 @@ Section Walker.
         o_infer opts &&
         existsb (fun s => match s with
                           | Some n => negb (is_null n) &&
+                                      (* an empty list has no element to infer a key from: it is skipped *)
+                                      negb (match elems_of n with [] => true | _ => false end) &&
                                       negb (String.eqb (assoc_key_of (o_assoc_keys opts) (elems_of n)) "")
                           | None => false
                           end) srcs
